@@ -72,7 +72,12 @@ static int reach_state(gctx_t *g)
 {
     const wcfg_t *c = &cfgs[g->ci];
     int n = nsteps[g->ci];
-    if (donor_capture(c, &g->donor) < 0)
+    wcfg_t dc = *c;
+    if (dc.early_data == 2)
+    {
+        dc.early_data = 1; /* the donor connection (foreign keys) must complete: take it from the early-data-enabled sibling */
+    }
+    if (donor_capture(&dc, &g->donor) < 0)
     {
         return -1;
     }
@@ -172,7 +177,7 @@ static int build_injection(gctx_t *g, const inj_t *in, unsigned char *out)
 
 static int early_ok(const wcfg_t *c, int side)
 {
-    return c->kx == KX_13_PSK && c->early_data && side == 1;
+    return (c->kx == KX_13_PSK || c->resume13) && c->early_data == 1 && side == 1; /* only a server SESSION that enabled early data may deliver it */
 }
 
 /* the invariant; returns 1 and fills r on violation */
@@ -225,7 +230,9 @@ static void run_case(void *ctx, mx_result_t *r)
         rc = world_encode_probe(&g->w, v);
         cfg_desc(c, cd, sizeof(cd));
         snprintf(r->outcome, sizeof(r->outcome), "probe:%s:c%d", rc > 0 ? "ok" : "refused", comp_before);
-        if (rc > 0 && !comp_before && !(c->kx == KX_13_PSK && c->early_data && v == 0))
+        /* not flagged: a client whose credential allows early data (0-RTT), and a TLS 1.3 server session that enabled and
+           accepted early data answering it before the client's Finished (0.5-RTT data under its application traffic keys, RFC 8446 4.4.4) */
+        if (rc > 0 && !comp_before && !((c->kx == KX_13_PSK || c->resume13) && c->early_data && v == 0) && !(v == 1 && early_ok(c, 1)))
         {
             r->violation = 1;
             snprintf(r->key, sizeof(r->key), "%s|v=%c|hs=%d|encode-before-complete", cd, "cs"[v], hs);
@@ -297,6 +304,21 @@ static int enter_post_state(gctx_t *g, int post, int victim)
 }
 
 /* closed / fatal post states are victim-specific: wrap run_case */
+static int no_post[MAXCFG];
+/* number of honest steps of a configuration whose honest run legitimately ends without completion */
+static int count_steps_any(const wcfg_t *cfg)
+{
+    world_t w;
+    int n;
+    if (world_init(&w, cfg) < 0)
+    {
+        return -1;
+    }
+    n = world_run_steps(&w, 1000);
+    world_free(&w);
+    return n;
+}
+
 static void run_case_post(void *ctx, mx_result_t *r)
 {
     gctx_t *g = ctx;
@@ -380,6 +402,15 @@ int main(int argc, char **argv)
     cfg.bound = "every (config, state, role, injection) case of the alphabet with 1 injection + honest continuation";
     build_injs();
     ncfg = std_configs(cfgs, MAXCFG, thorough);
+    /* a server SESSION that disabled early data, offered 0-RTT data under a ticket issued by an earlier early-data-enabled
+       session of the same key set: the honest run ends with the server's alert; nothing may reach its application */
+    if (ncfg < MAXCFG)
+    {
+        wcfg_t c;
+        memset(&c, 0, sizeof(c));
+        c.ver = V_TLS13; c.kx = KX_13_RSA; c.tickets = 1; c.resume13 = 1; c.early_data = 2; c.early_send = 1;
+        cfgs[ncfg++] = c;
+    }
 
     if (replay)
     {
@@ -392,6 +423,10 @@ int main(int argc, char **argv)
             return 2;
         }
         nsteps[ci] = world_count_steps(&cfgs[ci]);
+        if (nsteps[ci] == -2 && cfgs[ci].early_data == 2)
+        {
+            nsteps[ci] = count_steps_any(&cfgs[ci]);
+        }
         memset(&g, 0, sizeof(g));
         g.ci = ci; g.p = pp; g.victim = v; g.ii = ii;
         if (reach_state(&g) != 0)
@@ -411,6 +446,11 @@ int main(int argc, char **argv)
     for (i = 0; i < ncfg; i++)
     {
         nsteps[i] = world_count_steps(&cfgs[i]);
+        if (nsteps[i] == -2 && cfgs[i].early_data == 2)
+        {
+            nsteps[i] = count_steps_any(&cfgs[i]);
+            no_post[i] = 1;
+        }
         if (nsteps[i] < 0)
         {
             char cd[96];
@@ -419,7 +459,7 @@ int main(int argc, char **argv)
             printf("INTERNAL property=C01 key=honest-handshake-failed what=%s\n", cd);
             return 2;
         }
-        for (p = 0; p <= nsteps[i] + ST_NPOST; p++)
+        for (p = 0; p <= nsteps[i] + (no_post[i] ? 0 : ST_NPOST); p++)
         {
             groups[ngroups].ci = i;
             groups[ngroups].p = p;
